@@ -349,33 +349,100 @@ static void u4full_shard(long shard, void *arg) {    /* thorough: all 4-byte seq
         MC_ADD(C_U, 2);
     }
 }
-/* a.X.b must be accepted for every non-ASCII scalar X (stride-free: all 1,111,936 - 128 of them) */
+/* every non-ASCII scalar X (all 1,111,936 - 128 of them) in 34 surroundings: what stands before and after a non-ASCII character - atom text,
+ * a dot, a quote on either side, a backslash, white space, the quoted counterparts, the character doubled - against the reference; a.X.b must be
+ * accepted.  A rule that looks at the previous / next character through a truncated or re-encoded value shows for a few code points only. */
 static int C_SCALARS;
+static const char *const XPRE[34]  = { "a.", "", "a", "", "", ".", "", "\"a\"", "", "\"", "\"", "\"a", "\"", "\" ", "\"", "\"a ", "\"", "\"\\", "\"", "\"", "\"", "a.\"", "", "\\", "", " ", "", "a.\"", "\"", "\"a\".", "", "\"\"", "(", "a\"" };
+static const char *const XPOST[34] = { ".b", "", "", "a", ".", "", "\"a\"", "", "\"", "", "\"", "\"", "a\"", "\"", " \"", "\"", " a\"", "\"", "\\\"\"", ".\"", "\".a", "\"", "\\a", "", " ", "", "@", "\".b", "\"a", "", ".\"a\"", "", ")", "" };
 static void scalar_shard(long shard, void *arg) {
     (void)arg;
     unsigned long lo = (unsigned long)shard * 0x1000, hi = lo + 0x1000;
     for (unsigned long cp = lo; cp < hi; cp++) {
         if (cp < 0x80 || (cp >= 0xd800 && cp <= 0xdfff) || cp > 0x10ffff) continue;
-        unsigned char t[12]; size_t l = 0; t[l++] = 'a'; t[l++] = '.';
-        if (cp < 0x800) { t[l++] = (unsigned char)(0xc0 | (cp >> 6)); t[l++] = (unsigned char)(0x80 | (cp & 0x3f)); }
-        else if (cp < 0x10000) { t[l++] = (unsigned char)(0xe0 | (cp >> 12)); t[l++] = (unsigned char)(0x80 | ((cp >> 6) & 0x3f)); t[l++] = (unsigned char)(0x80 | (cp & 0x3f)); }
-        else { t[l++] = (unsigned char)(0xf0 | (cp >> 18)); t[l++] = (unsigned char)(0x80 | ((cp >> 12) & 0x3f)); t[l++] = (unsigned char)(0x80 | ((cp >> 6) & 0x3f)); t[l++] = (unsigned char)(0x80 | (cp & 0x3f)); }
-        t[l++] = '.'; t[l++] = 'b';
-        check_local("a.X.b", RM_6531, t, l);
-        t[l] = 0;
-        if (is_6531_local((const char *)t, (const char *)t + l) != 0)
-            mc_violation("a.X.b", "a.X.b-rejected", "", "mode=6531", t, l, "a.X.b rejected for scalar U+%04lX", cp);
-        MC_ADD(C_SCALARS, 1); MC_ADD(C_EVAL, 1);
+        unsigned char x[4], t[40]; size_t xl = 0;
+        if (cp < 0x800) { x[xl++] = (unsigned char)(0xc0 | (cp >> 6)); x[xl++] = (unsigned char)(0x80 | (cp & 0x3f)); }
+        else if (cp < 0x10000) { x[xl++] = (unsigned char)(0xe0 | (cp >> 12)); x[xl++] = (unsigned char)(0x80 | ((cp >> 6) & 0x3f)); x[xl++] = (unsigned char)(0x80 | (cp & 0x3f)); }
+        else { x[xl++] = (unsigned char)(0xf0 | (cp >> 18)); x[xl++] = (unsigned char)(0x80 | ((cp >> 12) & 0x3f)); x[xl++] = (unsigned char)(0x80 | ((cp >> 6) & 0x3f)); x[xl++] = (unsigned char)(0x80 | (cp & 0x3f)); }
+        for (int k = 0; k < 34; k++) for (int dbl = 0; dbl < 2; dbl++) {
+            size_t l = 0, a = strlen(XPRE[k]), b = strlen(XPOST[k]);
+            memcpy(t, XPRE[k], a); l = a; memcpy(t + l, x, xl); l += xl; if (dbl) { memcpy(t + l, x, xl); l += xl; } memcpy(t + l, XPOST[k], b); l += b;
+            check_local(k == 0 && !dbl ? "a.X.b" : "scalar-ctx", RM_6531, t, l);
+            if (k == 0 && !dbl) { t[l] = 0;
+                if (is_6531_local((const char *)t, (const char *)t + l) != 0) mc_violation("a.X.b", "a.X.b-rejected", "", "mode=6531", t, l, "a.X.b rejected for scalar U+%04lX", cp);
+                MC_ADD(C_EVAL, 1); }
+            MC_ADD(C_SCALARS, 1);
+        }
     }
 }
 #endif
 
 /* ---------------- replay ---------------- */
+/* ---------------- huge: local parts of 2^8 .. 2^32 characters ----------------
+ * The local validators have no length limit of their own (64 octets is the address validators' business, C01), so their verdict on a very long
+ * range is defined by the grammar alone.  Shapes with a structural feature at the START (2^31 and more bytes follow it) or at the END (2^31 and
+ * more bytes precede it), expected verdict by construction; lengths k*2^8+d, k*2^16+d, thorough: 2^31+d, 2^32+d.  A distance or index kept in an
+ * int / unsigned / short goes wrong here and nowhere else.  Views into one buffer of 'a's shared copy-on-write by the workers. */
+#include <sys/mman.h>
+static unsigned char *HB; static size_t HBCAP; static int C_HUGE; static int g_huge_mode = -1;   /* -1: all modes of this driver */
+static size_t HUGE_L[256]; static int HUGE_N;
+typedef struct { const char *pre, *post; int acc; /* 1 accept, 0 reject, in every mode of this driver; 2: accept in 822 only */ } hshape_t;
+static const hshape_t HSH[] = {
+    { "", "", 1 }, { "a.b", "", 1 }, { "", ".b", 1 }, { "\"", "\"", 1 }, { "\"a\".", "", 1 }, { "", ".\"a\"", 1 },
+    { "\"a\"b", "", 0 }, { "a..b", "", 0 }, { ".", "", 0 }, { "", ".", 0 }, { "", "..b", 0 }, { "", "\"", 0 }, { "\"", "", 0 }, { "a\"", "\"", 0 },
+    { "\"a\"", "", 0 }, { "", "\"a\"", 0 }, { "a b", "", 0 }, { "", " b", 0 }, { "\"\r\n ", "\"", 2 }, { "\"", "\r\n \"", 2 },
+#ifdef C03
+    { "\xd0\xb6.", "", 1 }, { "", ".\xd0\xb6", 1 }, { "\xd0\xb6\"", "\"", 0 }, { "\xff", "", 0 }, { "", "\xd0", 0 },
+#endif
+};
+#define NHSH ((int)(sizeof HSH / sizeof HSH[0]))
+static void huge_lengths(void) {
+    HUGE_N = 0;
+    for (int k = 1; k <= 4; k++) for (size_t d = 0; d <= 2; d++) HUGE_L[HUGE_N++] = (size_t)k * 256 + d;
+    static const int K16[] = { 1, 2, 16 };
+    for (int i = 0; i < 3; i++) for (size_t d = 0; d <= 5; d++) HUGE_L[HUGE_N++] = (size_t)K16[i] * 65536 + d;
+    if (!mc_thorough) HUGE_L[HUGE_N++] = ((size_t)1 << 31) + 5;      /* one length beyond INT_MAX in the quick tier too */
+    if (mc_thorough) { static const size_t B[] = { (size_t)1 << 24, (size_t)1 << 31, (size_t)1 << 32 }; static const size_t D[] = { 0, 1, 5 };
+        for (int i = 0; i < 3; i++) for (int j = 0; j < 3; j++) HUGE_L[HUGE_N++] = B[i] + D[j]; }
+}
+static void huge_alloc(size_t maxl) {
+    HBCAP = maxl + 8192;
+    HB = mmap(NULL, HBCAP, PROT_READ | PROT_WRITE, MAP_PRIVATE | MAP_ANONYMOUS | MAP_NORESERVE, -1, 0);
+    if (HB == MAP_FAILED) { perror("mmap"); exit(2); }
+    memset(HB, 'a', HBCAP);
+}
+static void huge_case(int sh, size_t L) {
+    const hshape_t *h = &HSH[sh]; size_t a = strlen(h->pre), b = strlen(h->post);
+    if (L + a + b + 64 > HBCAP) return;
+    unsigned char *p = HB + 4096 - a; memcpy(p, h->pre, a); memcpy(p + a + L, h->post, b); p[a + L + b] = 0;
+    size_t n = a + L + b;
+    for (int mi = 0; mi < NMODES; mi++) {
+        int mode = MODES[mi]; if (g_huge_mode >= 0 && mode != g_huge_mode) continue;
+        char cfg[96]; snprintf(cfg, sizeof cfg, "huge=1 shape=%d len=%zu mode=%s", sh, L, mode_name(mode));
+        mc_current("huge", cfg, (const unsigned char *)"", 0);
+        /* the grammar has no counters: the verdict for L filler characters is the reference's verdict for 70 of them */
+        unsigned char small[128]; memcpy(small, h->pre, a); memset(small + a, 'a', 70); memcpy(small + a + 70, h->post, b);
+        int rv = ref_local(small, a + 70 + b, mode, REF_OPTS); if (rv == R_ANY) continue;
+        int want = rv == R_ACC;
+        int rc = LOCAL[mode]((const char *)p, (const char *)p + n); MC_ADD(C_EVAL, 1); MC_ADD(C_HUGE, 1);
+        if ((rc == 0) != (want == 1)) { char w[96]; snprintf(w, sizeof w, "huge:%s:shape-%d:%s", mode_name(mode), sh, want ? "rejects-valid" : "accepts-invalid");
+            mc_violation("huge", w, "", cfg, (const unsigned char *)"", 0, "is_%s_local on %s + %zu x 'a' + %s: rc=%d, expected %s", mode_name(mode), h->pre[0] ? "a prefix" : "nothing", L, h->post[0] ? "a suffix" : "nothing", rc, want ? "accept" : "reject"); }
+    }
+    memset(HB + 4096 - 16, 'a', 32); memset(HB + 4096 + L - 8, 'a', 40);
+}
+static void huge_shard(long shard, void *arg) {     /* shard = (length, shape, mode): the longest cases take seconds each */
+    (void)arg; int li = (int)(shard / (NHSH * NMODES)), sh = (int)(shard / NMODES % NHSH);
+    if (HUGE_L[li] < ((size_t)1 << 20)) { if (shard % NMODES == 0) huge_case(sh, HUGE_L[li]); return; }
+    g_huge_mode = MODES[shard % NMODES]; huge_case(sh, HUGE_L[li]); g_huge_mode = -1;
+}
+
 static int do_replay(void) {
     mc_replay_t r;
     if (mc_load_replay(mc_replay, &r)) return 2;
     int mode = mode_of_name(mc_cfg_int(r.cfg, "mode", 5321));
     mc_replay_hit = 0;
+    if (mc_cfg_int(r.cfg, "huge", 0)) { size_t L = (size_t)strtoull(strstr(r.cfg, "len=") + 4, NULL, 10); huge_alloc(L); huge_case((int)mc_cfg_int(r.cfg, "shape", 0), L); }
+    else
     check_local(r.sub, mode, r.in, (size_t)r.len);
     printf("replay %s: %s\n", mc_replay, mc_replay_hit ? "VIOLATION reproduced" : "no violation");
     return mc_replay_hit ? 1 : 0;
@@ -386,9 +453,9 @@ int main(int argc, char **argv) {
     C_L1 = mc_counter("L1_strings_x_modes"); C_L2 = mc_counter("L2_strings"); C_L2P = mc_counter("L2_pair_strings");
     C_L2W = mc_counter("L2_Wmethod_strings"); L2M = mc_thorough ? 3 : 2;
     C_L3 = mc_counter("L3_strings"); C_L1D = mc_counter("L1_deep_strings_x_modes"); C_U = mc_counter("utf8_sweep_strings");
-    C_ACC = mc_counter("ref_accept"); C_REJ = mc_counter("ref_reject"); C_ANY = mc_counter("ref_any"); C_IMPLACC = mc_counter("impl_accept");
+    C_ACC = mc_counter("ref_accept"); C_REJ = mc_counter("ref_reject"); C_ANY = mc_counter("ref_any"); C_IMPLACC = mc_counter("impl_accept"); C_HUGE = mc_counter("huge_length_calls");
 #ifdef C03
-    C_SCALARS = mc_counter("scalars_a.X.b");
+    C_SCALARS = mc_counter("scalar_x_surrounding_strings");
 #endif
     setup_objects();
     if (mc_replay) return do_replay();
@@ -418,8 +485,11 @@ int main(int argc, char **argv) {
     mc_parallel("U1+U2: all 1- and 2-byte sequences x 5 contexts", 255, u12_shard, NULL);
     mc_parallel("U3: all 3-byte sequences x 5 contexts", 255 * 255, u3_shard, NULL);
     mc_parallel("U4: lead x boundary continuation bytes x 5 contexts", 255, u4_shard, NULL);
-    mc_parallel("a.X.b for every non-ASCII scalar", 0x110000 / 0x1000, scalar_shard, NULL);
+    mc_parallel("every non-ASCII scalar, single and doubled, in 34 surroundings (a.X.b among them)", 0x110000 / 0x1000, scalar_shard, NULL);
 #endif
+    { huge_lengths(); size_t mx = 0; for (int i = 0; i < HUGE_N; i++) if (HUGE_L[i] > mx) mx = HUGE_L[i];
+      huge_alloc(mx); char nmh[160]; snprintf(nmh, sizeof nmh, "huge: %d shapes (feature at the start / at the end) x %d lengths k*2^8+d, k*2^16+d%s", NHSH, HUGE_N, mc_thorough ? ", 2^24+d, 2^31+d, 2^32+d" : ", 2^31+5");
+      mc_parallel(nmh, (long)HUGE_N * NHSH * NMODES, huge_shard, NULL); munmap(HB, HBCAP); }
     int n1 = mc_thorough ? 8 : 6;
     memset(&L1E, 0, sizeof L1E);
     L1E.A = SIGC; L1E.nA = NSIGC; L1E.N = n1; L1E.k = 3; L1E.fn = l1_cb; L1E.arg = NULL;
